@@ -130,12 +130,25 @@ func VerifC01_SetTime() {
 	// years 0000/0001 are within a zone offset of the zero instant (the 'no value' date-time): excluded
 	verifAssume(y >= 2 && verifValidDate(y, mo, dd) && h <= 23 && mi <= 59 && s <= 59)
 	t := time.Date(y, time.Month(mo), dd, h, mi, s, 0, time.Local)
+	if c01SetTimeConfigured {
+		vConfigure(u, id, "udp")
+	}
 	u.SetTime(id, t)
 	want := specReq(0x30, id)
 	for i := 0; i < 7; i++ {
 		want[8+i] = dg[2*i]<<4 | dg[2*i+1]
 	}
 	c01Check(d, want, "SetTime")
+}
+
+// the same for a controller that is configured with a time zone (nil, UTC or the process zone): the request
+// carries the wall clock of the argument
+var c01SetTimeConfigured bool
+
+func VerifC01_SetTimeConfigured() {
+	c01SetTimeConfigured = true
+	defer func() { c01SetTimeConfigured = false }()
+	VerifC01_SetTime()
 }
 
 func VerifC01_GetDoorControlState() {
